@@ -156,7 +156,8 @@ def run(ctx):
     rep.check(bool(jloops) and all(shapes.get(l) == want_j for l in jloops), "D1b-GEN-TEMPLATE", where(asm), "row-loop",
               "generated row loop runs j = 0 .. m-1", "generated row loop header changed: %s -> %s" % (jloops, [shapes.get(l) for l in jloops]))
     rows = [l for l in lits if "ORC_PTR_OFFSET" in l]
-    rep.check(rows and all(re.search(r"ptr%d = ORC_PTR_OFFSET\(%s, %s \* j\)", l) for l in rows), "D1b-GEN-TEMPLATE", where(asm), "row-pointer",
+    # base + stride * j, whatever integer type the product is formed in (a cast of the stride is what D17 asks for)
+    rep.check(rows and all(re.search(r"ptr%d = ORC_PTR_OFFSET\(%s,\s*(\([A-Za-z_0-9 ]+\)\s*)?%s \* j\)", l) for l in rows), "D1b-GEN-TEMPLATE", where(asm), "row-pointer",
               "row pointers are ORC_PTR_OFFSET(array, stride * j)", "row pointer template changed: %s" % rows)
     # const declaration for sources
     from flow import Facts
@@ -243,6 +244,7 @@ def run(ctx):
     # D15: "for any ... alignment": an access whose displacement contains a program-chosen value is not emitted as aligned
     from x86enc import check_aligned_load_offsets
     check_aligned_load_offsets(db, rep, "D15-ALIGNED-ONLY-AT-LOOP-OFFSET")
+    d17_row_offset_wide(db, rep)
     # D16: the code that runs is the program's CURRENT code: a stale attach-time copy of the entry point runs whatever was placed in
     # the freed chunk since - another program, over this one's arrays (shared with C06/C16/C17)
     importlib.import_module("rules.c06").snapshot_slots(db, rep, "D16-LIVE-CODE")
@@ -858,3 +860,53 @@ def d12_displacement_agree(db, rep):
                           line=ex[-1][1][0][0].line if bad else f.line)
     if n < 6:
         raise AnalysisBroken("only %d load/store rules with several accesses found" % n)
+
+
+
+def d17_row_offset_wide(db, rep, rule="D17-ROW-OFFSET-WIDE"):
+    """D17: "for any ... stride and row count".  The address of row j of a 2-D array is base + stride * j.  Strides and row
+    indices are ints; their product must be formed in a type as wide as a pointer (one factor cast to a 64-bit / pointer-sized
+    integer first), or a large stride wraps and the row is read and written far from the array.  Judged for every
+    ORC_PTR_OFFSET (base, a * b) in the emulator and for the row-pointer templates the C back end prints."""
+    import re
+    WIDE = ("orc_int64", "orc_uint64", "orc_intptr", "long", "ptrdiff_t", "size_t", "intptr_t", "long long")
+    n = 0
+    ee = db.func("orc_executor_emulate", "orcexecutor")
+    rep.saw(ee)
+    for x in ee.walk():
+        # ORC_PTR_OFFSET expands to a cast of (unsigned char *)base + (offset)
+        if x.k != "BinaryOperator" or x.op != "+" or "*" not in (x.ty or ""):
+            continue
+        off = strip_casts(x.c[1])
+        while off is not None and off.k == "ParenExpr":
+            off = strip_casts(off.c[0])
+        if off is None or off.k != "BinaryOperator" or off.op != "*":
+            continue
+        if not any(y.k == "MemberExpr" and y.name == "params" for y in off.walk()):
+            continue
+        n += 1
+        wide = any(z.k == "CStyleCastExpr" and any(w in (z.get("toty") or "") for w in WIDE) for z in off.c[0].walk()) or \
+            any(z.k == "CStyleCastExpr" and any(w in (z.get("toty") or "") for w in WIDE) for z in off.c[1].walk()) or \
+            any(w in (off.ty or "") for w in WIDE)
+        rep.check(wide, rule, where(ee), "emulate:row-offset@%s" % x.line,
+                  "stride * row index is formed in a 64-bit type",
+                  "orc_executor_emulate computes the row offset `%s` in int: a stride of 1 GiB overflows at the third row and the emulator accesses memory "
+                  "2 GiB away from the array" % unparse(off)[:60], line=x.line)
+    ca = db.func("orc_compiler_c_assemble", "orcprogram-c")
+    rep.saw(ca)
+    for c in ca.calls("orc_compiler_append_code"):
+        a = c.args()
+        lit = strip_casts(a[1]) if len(a) > 1 else None
+        t = lit.get("str", "") if lit is not None and lit.k == "StringLiteral" else ""
+        m = re.search(r"ORC_PTR_OFFSET\(%s,\s*(.*?)\*\s*j\)", t)
+        if not m:
+            continue
+        n += 1
+        rep.check(any(w in m.group(1) for w in WIDE), rule, where(ca), "c-backend:row-pointer@%s" % c.line,
+                  "the generated row pointer multiplies in a 64-bit type",
+                  "the C back end prints `%s`: stride and row index are ints in the generated function, their product overflows for large strides" % t.strip()[:70],
+                  line=c.line)
+    if n < 4:
+        raise AnalysisBroken("only %d row-offset computations found (emulator + C back end)" % n)
+    return n
+
